@@ -7,6 +7,7 @@ of C08 are stated.  The regexp engine is the parameter `ext.reCompile` / `ext.re
 import DtailModel.Generated.Code
 import DtailModel.Lemmas.GoRT
 import DtailModel.Model.Perm
+set_option autoImplicit false
 namespace Dtail.GenPerm
 open Dtail Dtail.Go Dtail.Gen.User
 
